@@ -311,23 +311,23 @@ package abft
 //@
 //@ func (*Orderer).dfsSubgraph
 //@   requires p != nil && p.input != nil && closureof(filter, "(*Lachesis).confirmEvents$1")
-//@   requires deref(captured(filter, "(*Lachesis).confirmEvents$1", 0, "**Lachesis")) != nil && deref(captured(filter, "(*Lachesis).confirmEvents$1", 0, "**Lachesis")).Orderer != nil && deref(captured(filter, "(*Lachesis).confirmEvents$1", 0, "**Lachesis")).store != nil
-//@   requires deref(captured(filter, "(*Lachesis).confirmEvents$1", 1, "*idx.Frame")) != 0
+//@   requires deref(captured(filter, "(*Lachesis).confirmEvents$1", "p", "**Lachesis")) != nil && deref(captured(filter, "(*Lachesis).confirmEvents$1", "p", "**Lachesis")).Orderer != nil && deref(captured(filter, "(*Lachesis).confirmEvents$1", "p", "**Lachesis")).store != nil
+//@   requires deref(captured(filter, "(*Lachesis).confirmEvents$1", "frame", "*idx.Frame")) != 0
 //@   requires dinv() && closed(p)
 //@   modifies gConf[*], gDeliv[*]
 //@   ensures  [closed] result == nil ==> closed(p) && gConf[head] != 0
 //@   ensures  [once] dinv()
 //@   ensures  [keep] forall(x hash.Event, old(gConf[x]) != 0 ==> gConf[x] == old(gConf[x]))
-//@   ensures  [mark] forall(x hash.Event, gConf[x] == old(gConf[x]) || gConf[x] == deref(captured(filter, "(*Lachesis).confirmEvents$1", 1, "*idx.Frame")))
-//@   ensures  [exact] deref(captured(filter, "(*Lachesis).confirmEvents$1", 2, "*uintptr")) != 0 ==> forall(x hash.Event, gDeliv[x] == old(gDeliv[x]) + ite(old(gConf[x]) == 0 && gConf[x] != 0, 1, 0))
+//@   ensures  [mark] forall(x hash.Event, gConf[x] == old(gConf[x]) || gConf[x] == deref(captured(filter, "(*Lachesis).confirmEvents$1", "frame", "*idx.Frame")))
+//@   ensures  [exact] deref(captured(filter, "(*Lachesis).confirmEvents$1", "onEventConfirmed", "*uintptr")) != 0 ==> forall(x hash.Event, gDeliv[x] == old(gDeliv[x]) + ite(old(gConf[x]) == 0 && gConf[x] != 0, 1, 0))
 //@   loop 1 modifies gConf[*], gDeliv[*], stack
 //@   loop 1 invariant arrfresh(stack, old(_alloc)) && (pwalk == nil ==> len(stack) == 0)
 //@   loop 1 invariant dinv()
 //@   loop 1 invariant [head] gConf[head] != 0 || (pwalk != nil && deref(pwalk) == head)
 //@   loop 1 invariant [pend] pend(p, stack, pwalk)
 //@   loop 1 invariant forall(x hash.Event, old(gConf[x]) != 0 ==> gConf[x] == old(gConf[x]))
-//@   loop 1 invariant forall(x hash.Event, gConf[x] == old(gConf[x]) || gConf[x] == deref(captured(filter, "(*Lachesis).confirmEvents$1", 1, "*idx.Frame")))
-//@   loop 1 invariant deref(captured(filter, "(*Lachesis).confirmEvents$1", 2, "*uintptr")) != 0 ==> forall(x hash.Event, gDeliv[x] == old(gDeliv[x]) + ite(old(gConf[x]) == 0 && gConf[x] != 0, 1, 0))
+//@   loop 1 invariant forall(x hash.Event, gConf[x] == old(gConf[x]) || gConf[x] == deref(captured(filter, "(*Lachesis).confirmEvents$1", "frame", "*idx.Frame")))
+//@   loop 1 invariant deref(captured(filter, "(*Lachesis).confirmEvents$1", "onEventConfirmed", "*uintptr")) != 0 ==> forall(x hash.Event, gDeliv[x] == old(gDeliv[x]) + ite(old(gConf[x]) == 0 && gConf[x] != 0, 1, 0))
 //@   loop 2 modifies stack
 //@   loop 2 invariant arrfresh(stack, old(_alloc))
 //@   loop 2 invariant 0 <= _k && _k <= len(_range) && len(stack) == atentry(len(stack)) + _k
